@@ -48,6 +48,14 @@ def registry():
     from pySDC.implementations.transfer_classes.TransferMesh import mesh_to_mesh
     from pySDC.implementations.transfer_classes.TransferMesh_FFT import mesh_to_mesh_fft
     from pySDC.implementations.transfer_classes.TransferMesh_NoCoarse import mesh_to_mesh as mesh_to_mesh_nocoarse
+    try:
+        from pySDC.implementations.sweeper_classes.generic_implicit_MPI import generic_implicit_MPI
+        from pySDC.implementations.sweeper_classes.imex_1st_order_MPI import imex_1st_order_MPI
+        from pySDC.implementations.transfer_classes.BaseTransferMPI import base_transfer_MPI
+        from pySDC.implementations.convergence_controller_classes.basic_restarting import BasicRestartingMPI
+        from pySDC.implementations.convergence_controller_classes.spread_step_sizes import SpreadStepSizesBlockwiseMPI
+    except ImportError:  # no (simulated) mpi4py on the path: serial engines only
+        pass
     from pySDC.implementations.convergence_controller_classes.adaptivity import (
         Adaptivity,
         AdaptivityRK,
@@ -426,6 +434,8 @@ def make_ccs(ctx):
 
     # ---- order -1000: first in every callback round -> end-of-block state before anybody prepares the next block
     def first_prepare(self, controller, S, size, time, Tend, MS=None, **kw):
+        if MS is None:  # controller_MPI: one step per rank, `time` is the start time of the next block
+            MS, time = [S], [time]
         b = ctx.blocks[-1]
         if b.get('ended'):
             return
@@ -619,7 +629,10 @@ def instrument(ctrl, ctx):
 
 
 def initial_value(ctrl, spec, t0):
-    P = ctrl.MS[0].levels[0].prob
+    return initial_value_for(ctrl.MS[0].levels[0].prob, spec, t0)
+
+
+def initial_value_for(P, spec, t0):
     if spec == 'exact':
         return P.u_exact(t0)
     u = P.dtype_u(P.init, val=0.0)
